@@ -159,6 +159,36 @@ func c18Root(info *types.Info, e ast.Expr) (root *ast.Ident, throughRef bool) {
 	}
 }
 
+// c18ExternalMutators: method names of standard-library types that change the receiver.  Calling one on a value rooted
+// at a package-level variable (memo in a sync.Map, buffer pool, atomic.Value, sync.Once-guarded lazy init) or at an
+// instance field is a write to that state, exactly like an assignment.
+var c18ExternalMutators = map[string]bool{
+	"Store": true, "LoadOrStore": true, "LoadAndDelete": true, "Delete": true, "Swap": true, "CompareAndSwap": true, "CompareAndDelete": true,
+	"Put": true, "Do": true, "Add": true, "Reset": true, "Grow": true, "Write": true, "WriteByte": true, "WriteString": true, "WriteRune": true,
+	"Push": true, "PushBack": true, "PushFront": true, "Remove": true, "Clear": true, "Range": false,
+}
+
+func c18LeftmostIdent(e ast.Expr) *ast.Ident {
+	for {
+		switch x := e.(type) {
+		case *ast.Ident:
+			return x
+		case *ast.SelectorExpr:
+			e = x.X
+		case *ast.IndexExpr:
+			e = x.X
+		case *ast.StarExpr:
+			e = x.X
+		case *ast.ParenExpr:
+			e = x.X
+		case *ast.CallExpr:
+			e = x.Fun
+		default:
+			return nil
+		}
+	}
+}
+
 func c18IsPkgVar(o types.Object) bool {
 	v, ok := o.(*types.Var)
 	if !ok || v.IsField() || v.Pkg() == nil {
@@ -446,6 +476,15 @@ func c18ScanRepo(root string) (*C18Scan, error) {
 							recv = f.X
 						} else {
 							callee, _ = info.Uses[f.Sel].(*types.Func)
+						}
+					}
+					// mutating methods of NON-library types (sync.Map, sync.Pool, atomic.Value, sync.Once, container types ...)
+					// called on something rooted at a package-level variable / parameter: a write through that root.
+					if byObj[callee] == nil {
+						if se, ok := x.Fun.(*ast.SelectorExpr); ok && c18ExternalMutators[se.Sel.Name] {
+							if _, isPkg := info.Uses[c18LeftmostIdent(se.X)].(*types.PkgName); !isPkg {
+								markVia(se.X, false)
+							}
 						}
 					}
 					if g := byObj[callee]; g != nil {
@@ -783,6 +822,13 @@ func c18ScanRepo(root string) (*C18Scan, error) {
 							recv = f.X
 						} else {
 							callee, _ = info.Uses[f.Sel].(*types.Func)
+						}
+					}
+					if byObj[callee] == nil {
+						if se, ok := x.Fun.(*ast.SelectorExpr); ok && c18ExternalMutators[se.Sel.Name] {
+							if _, isPkg := info.Uses[c18LeftmostIdent(se.X)].(*types.PkgName); !isPkg {
+								rec(se.X) // this.cache.Store(...): sync.Map / sync.Pool / atomic.Value held in a field
+							}
 						}
 					}
 					if g := byObj[callee]; g != nil {
